@@ -12,3 +12,155 @@ def J(labels, K):
         idx = np.where(labels == v)[0]
         s += K[np.ix_(idx, idx)].sum() / len(idx)
     return float(s)
+
+
+def stock(K, a, b):
+    return float(K[np.ix_(a, b)].sum())
+
+
+class State:
+    """An intermediate KAURI state in plain form: leaf_of[i] (leaf of sample i), cl_of_leaf[l] (cluster of leaf l)."""
+
+    def __init__(self, K, X, leaf_of, cl_of_leaf, n_clusters, K_max, min_leaf, explore, features):
+        self.K, self.X = K, X
+        self.leaf_of = np.asarray(leaf_of)
+        self.cl_of_leaf = np.asarray(cl_of_leaf)
+        self.nK, self.K_max, self.min_leaf = int(n_clusters), int(K_max), int(min_leaf)
+        self.explore = [int(e) for e in explore]
+        self.features = [int(f) for f in features]
+        self.labels = self.cl_of_leaf[self.leaf_of]
+        self.members = {c: np.where(self.labels == c)[0] for c in range(self.nK)}
+        self.sigma = {c: stock(K, m, m) for c, m in self.members.items()}
+
+    def real_gain(self, left, right, k, lt, rt):
+        """J(after) - J(before) when samples `left` go to cluster lt and `right` to rt (both currently in k)."""
+        affected = {k, lt, rt}
+        before = sum(self.sigma[c] / len(self.members[c]) for c in affected if c < self.nK and len(self.members[c]))
+        moved = np.concatenate([left, right])
+        after = 0.0
+        for c in affected:
+            base = self.members[c] if c < self.nK else np.zeros(0, dtype=int)
+            if c == k:
+                base = np.setdiff1d(base, moved, assume_unique=True)
+            parts = [base]
+            if lt == c:
+                parts.append(left)
+            if rt == c:
+                parts.append(right)
+            m = np.concatenate(parts).astype(int)
+            if len(m):
+                after += stock(self.K, m, m) / len(m)
+        return after - before
+
+    def candidates(self):
+        """Yields (leaf, feature, threshold, left, right, k) for every admissible threshold of every explorable leaf."""
+        for leaf in self.explore:
+            idx = np.where(self.leaf_of == leaf)[0]
+            k = int(self.cl_of_leaf[leaf])
+            nl = len(idx)
+            for f in self.features:
+                order = np.argsort(self.X[idx, f], kind="stable")
+                srt = idx[order]
+                vals = self.X[srt, f]
+                for ls in range(1, nl):
+                    if ls < self.min_leaf or nl - ls < self.min_leaf:
+                        continue
+                    if vals[ls - 1] == vals[ls]:
+                        continue
+                    yield leaf, f, float(vals[ls - 1]), srt[:ls], srt[ls:], k
+
+    def assignments(self, k, nl):
+        """Admissible (left_target, right_target, kind) for a leaf of nl samples currently in cluster k."""
+        nK, Kmax = self.nK, self.K_max
+        c = len(self.members[k])
+        out = []
+        if nK < Kmax:
+            out += [(nK, k, "star"), (k, nK, "star")]
+        if nK < Kmax - 1 and nl != c:
+            out.append((nK, nK + 1, "double"))
+        others = [q for q in range(nK) if q != k]
+        for kp in others:
+            out += [(kp, k, "switch"), (k, kp, "switch")]
+        if nK >= 3 and nl != c:
+            for k1, k2 in itertools.permutations(others, 2):
+                out.append((k1, k2, "realloc"))
+        return out
+
+    # ---- emulations of the two known findings ------------------------------------------------------------
+    def wrong_double_star(self, leaf, f, left, right, k):
+        """D12: value the extension computes for the double-star assignment (omega[k, feature_id] in place of the
+        stock between the leaf and its cluster; the split term misses a factor 2)."""
+        K = self.K
+        idx = np.where(self.leaf_of == leaf)[0]
+        Ck = self.members[k]
+        c, nl, ls = len(Ck), len(idx), len(left)
+        g = self.sigma[k]
+        lsq = stock(K, idx, idx)
+        slsq = stock(K, left, left)
+        srsq = stock(K, right, right)
+        D = c - nl
+        if f >= K.shape[1]:
+            return None  # the extension reads out of bounds here: nothing to emulate
+        leaf_star = lsq * (1 / nl + 1 / D) + g * (1 / D - 1 / c) - 2 * float(K[Ck, f].sum()) / D
+        D2 = nl - ls
+        slsr = (lsq - slsq - srsq) / 2
+        split_star = slsq * (1 / ls + 1 / D2) + lsq * (1 / D2 - 1 / nl) - (slsq + slsr) / D2
+        return leaf_star + split_star
+
+    def typo_realloc(self, left, right, k):
+        """D13: the pair of clusters the extension ends up proposing for a reallocation, tracking the runner-up of
+        the right-hand switch with `elif left_switch >= second_gain_right`."""
+        others = [q for q in range(self.nK) if q != k]
+        tgl = sgl = tgr = sgr = -np.inf
+        tkl = skl = tkr = skr = -1
+        for kp in others:
+            l_ = self.real_gain(left, right, k, kp, k)
+            r_ = self.real_gain(left, right, k, k, kp)
+            if l_ >= tgl:
+                tgl, sgl = l_, tgl
+                tkl, skl = kp, tkl
+            elif l_ >= sgl:
+                sgl, skl = l_, kp
+            if r_ >= tgr:
+                tgr, sgr = r_, tgr
+                tkr, skr = kp, tkr
+            elif l_ >= sgr:
+                sgr, skr = r_, kp
+        if tkl != tkr:
+            return tkl, tkr
+        if tgl + sgr > tgr + sgl:
+            return tkl, skr
+        return skl, tkr
+
+    def best(self, emu_ds=False, emu_typo=False):
+        """Maximum gain over all admissible alternatives (0.0 if none is positive) and the kind that attains it."""
+        best, kind = 0.0, None
+        for leaf, f, thr, left, right, k in self.candidates():
+            nl = len(left) + len(right)
+            for lt, rt, kd in self.assignments(k, nl):
+                if kd == "double" and emu_ds:
+                    g = self.wrong_double_star(leaf, f, left, right, k)
+                    if g is None:
+                        continue
+                elif kd == "realloc" and emu_typo:
+                    continue
+                else:
+                    g = self.real_gain(left, right, k, lt, rt)
+                if g > best:
+                    best, kind = g, kd
+            if emu_typo and self.nK >= 3 and nl != len(self.members[k]):
+                kl, kr = self.typo_realloc(left, right, k)
+                if kl >= 0 and kr >= 0:
+                    g = self.real_gain(left, right, k, kl, kr)
+                    if g > best:
+                        best, kind = g, "realloc"
+        return best, kind
+
+
+def state_from_arrays(kernel, X, leaves_to_explore, Y, Z, n_clusters, K_max, n_leaves, min_leaf, feature_subset):
+    """Plain state from the arguments of find_best_split."""
+    Zs = np.asarray(Z)[:n_leaves]
+    leaf_of = Zs.argmax(0)
+    cl_of_leaf = np.asarray(Y)[:, :n_leaves].argmax(0)
+    return State(np.asarray(kernel), np.asarray(X), leaf_of, cl_of_leaf, n_clusters, K_max, min_leaf,
+                 list(leaves_to_explore), list(feature_subset))
